@@ -233,14 +233,22 @@ def generate(rng, tier):
     ops.append({"t": round(tc + 0.02, 6), "op": "register", "h": "H", "svc": canary})
     faults = {"max_delay_us": rng.choice([0, 1000, 50000]), "dup_p": rng.choice([0.0, 0.1]),
               "corrupt_p": rng.choice([0.0, 0.05, 0.2])}
+    # socket errors reported by the kernel for earlier transmissions (ICMP unreachable, ENOBUFS ...) reach the protocol's
+    # error_received between the datagrams
+    for _ in range(rng.choice([0, 0, 1, 3])):
+        ops.append({"t": round(t_stream0 + rng.random() * (t_end_stream - t_stream0), 6), "op": "sockerr", "h": "V",
+                    "errno": rng.choice([111, 105, 101, 90])})
+    ops.sort(key=lambda o: o["t"])
     return {"timer_slop_us": rng.choice([0, 0, 1, 50, 300]), "ops": ops, "faults": faults, "end": round(tc + 4.0, 6), "t_canary": round(tc, 6),
-            "stream": [round(t_stream0, 6), round(t_end_stream, 6)]}
+            "stream": [round(t_stream0, 6), round(t_end_stream, 6)],
+            # the application runs the library with its logger at DEBUG (every datagram is then rendered for the log)
+            "debug_log": rng.random() < 0.15}
 
 
 def execute(scenario, seed, overrides=None):
     out = runner.Outcome()
     w = World(seed, FaultConfig(**scenario.get("faults", {})), overrides,
-              timer_slop=scenario.get("timer_slop_us", 0) / 1e6)
+              timer_slop=scenario.get("timer_slop_us", 0) / 1e6, debug_log=scenario.get("debug_log", False))
     stats = {"hostile_delivered": 0, "oversize_sent": 0, "random": 0, "mutated": 0, "hostile": 0, "deep_chain": 0,
              "utf8_labels": 0, "legacy_port_hostile": 0}
     try:
@@ -307,6 +315,15 @@ def execute(scenario, seed, overrides=None):
             f.corrupt_p = 0.0
             f.drop_p = 0.0
 
+        def op_sockerr(op):
+            h = w.hosts.get(op["h"])
+            if h is None or h.zc is None or not h.alive:
+                return
+            for proto in list(h.zc.engine.protocols):
+                h.new_context().run(proto.error_received, OSError(op["errno"], "simulated socket error"))
+            stats["socket_errors"] = stats.get("socket_errors", 0) + 1
+
+        drv.hooks["sockerr"] = op_sockerr
         drv.hooks["fuzz"] = op_fuzz
         drv.hooks["faults_off"] = op_faults_off
 
@@ -379,6 +396,10 @@ def execute(scenario, seed, overrides=None):
         out.decisions = w.dec.recorded
         out.stats.update({f"fault_{k}": v for k, v in w.net.fault_counts.items()})
         out.stats.update(stats)
+        if scenario.get("debug_log"):
+            from sim.world import _FormattingHandler
+
+            out.stats["debug_log_runs"] = 1
         out.nontrivial = stats["hostile_delivered"] >= 5
         out.sample = {"ops": [o for o in scenario["ops"] if o["op"] == "fuzz"][:5], "stream": scenario["stream"],
                       "stats": stats}
